@@ -91,7 +91,7 @@ ASSUMPTIONS = [
     'OPEN finding (guard of history_safe_partial): after a save onto the live image\'s own source path that changes '
     'the on-disk layout (dtype/scaling) the live image reads through a stale proxy / stale float64 memmap cache',
 ]
-RULE = ('streams: wrap (load p, re-wrap the data as a NEW array image — plain view / np.memmap / proxy / [::1] / .T.T / '
+RULE = ('A14 = the affine an SPM Analyze header itself expresses (its .mat must still be rewritten over a stale one); streams: wrap (load p, re-wrap the data as a NEW array image — plain view / np.memmap / proxy / [::1] / .T.T / '
         '.view(ndarray) / asfortranarray / [..., :] / copy / get_fdata() —, save onto the same path, another path, another '
         'spelling, for every mmap-able path x mmap mode x small/big); hdraffine (header sform/qform edited directly — to another affine or to the image\'s own affine with a '
         'different code — or via the image API, then first/second save to same- and other-flavour targets, for NIfTI-1/2 '
@@ -114,6 +114,8 @@ COMPRESSED = (1, 5, 8, 9, 10)
 HDR_NAME = {3: 'a.hdr', 6: 's.hdr', 8: 'c.hdr.gz'}
 INIT_CLS = {3: 'Nifti1Pair', 4: 'MGHImage', 5: 'MGHImage', 6: 'Spm2AnalyzeImage', 7: 'Nifti2Image', 8: 'Nifti1Pair'}
 OTHER_A, OTHER_B = 12, 13      # affine ids that no file starts with (even / odd: the two kinds of header edit)
+EXPR = 14                      # the affine an SPM Analyze HEADER itself expresses for the shape (x-flipped zooms (2,3,4),
+                               # origin at the volume centre): update_header finds it allclose to the header's own best affine
 
 
 def pidx(ch):
@@ -512,6 +514,7 @@ def case_from_data(d):
 
 HA, HB = 'H%d' % OTHER_A, 'H%d' % OTHER_B      # header edit: sform (code 3) / sform cleared + qform
 AA, AB = 'A%d' % OTHER_A, 'A%d' % OTHER_B
+AE = 'A%d' % EXPR
 FULL_ALPHA = ([f'L{p}{m}' for p in range(6) for m in (1, 0)] + [f'S{p}' for p in range(6)] +
               ['Di16', 'Df32', 'Df64', 'F', 'U', 'E1', AA, HB, 'B'])
 # re-wrap ops among loads / saves of the mmap-able single-file, pair and MGH names
@@ -608,6 +611,23 @@ def wrap_cases():
                         hs.append([f'L{c}1', f'W{k}', HA, f'S{q}', f'L{q}1', f'W{(k + 1) % NW}', f'S{c}', f'S{q}'])
                     for h in (hs if not big else hs[:2]):
                         out.append(mk_case(init, h, big, 'wrap'))
+    return out
+
+
+def spmmat_cases():
+    """two saves onto the SAME SPM pair name: the .mat side file of the first must not survive the second — the second
+    image has the affine the SPM header itself expresses (A14), so nothing but the .mat distinguishes the affines.
+    Only s.img is loaded and saved to (the image stays an SPM image: A14 is the base affine of a fresh NIfTI header
+    too, which the model's affine ids do not express)"""
+    out = []
+    for m in (1, 0, 2):
+        for dt in ('i16', 'f32'):
+            init = list(INIT_I16)
+            init[6] = dt
+            L = f'L6{m}'
+            for h in ([L, AE, 'S6'], [L, AE, 'S6', 'F', 'S6'], [L, AB, 'S6', AE, 'S6', 'F'], [L, AE, 'S6', AA, 'S6', L, AE, 'S6@6'],
+                      [L, 'W0', AE, 'S6'], [L, AE, 'S6@4', L, 'F', AB, 'S6@1'], [L, 'E2', AE, 'S6', 'U', 'F', HA, 'S6']):
+                out.append(mk_case(init, h, False, 'spmmat'))
     return out
 
 
@@ -730,7 +750,7 @@ def random_cases(rng, n, safe_bias=0.7):
 
 
 def cases(rng, tier):
-    out = selfsave_cases() + spelling_cases() + hdraffine_cases() + wrap_cases()
+    out = selfsave_cases() + spelling_cases() + hdraffine_cases() + wrap_cases() + spmmat_cases()
     first_all = [f'L{p}{m}' for p in range(6) for m in (1, 0)]
     first_q = [f'L{p}1' for p in range(6)] + ['L00', 'L30', 'L40']
     first_mm = [f'L{p}1' for p in range(6)]
@@ -994,6 +1014,11 @@ def _child(jobfile, outfile, workdir):
         return ((np.arange(n).reshape(shape) * 7) % 13 + 1 + 20 * i).astype('int32')
 
     def aff_for(k):
+        if k == EXPR:       # what an SPM Analyze header with these zooms and the current shape expresses by itself
+            h = nib.Spm2AnalyzeImage.header_class()
+            h.set_data_shape(shape)
+            h.set_zooms((2.0, 3.0, 4.0))
+            return np.array(h.get_best_affine())
         a = np.diag([2.0, 3.0, 4.0, 1.0])
         if k % 2:
             a[0, 0] = -2.0
@@ -1010,7 +1035,7 @@ def _child(jobfile, outfile, workdir):
         return 'X'
 
     def aff_id(a):
-        for k in range(OTHER_B + 1):
+        for k in range(EXPR + 1):
             if a.shape == (4, 4) and np.allclose(a, aff_for(k), atol=1e-3, rtol=0):
                 return str(k)
         return 'X'
@@ -1361,7 +1386,8 @@ def _child(jobfile, outfile, workdir):
                     fi = PCH[PATHS.index(fn)] if fn in PATHS else '-'
                     emit(i=i, tok='live=' + '/'.join([CLS.get(type(img).__name__, type(img).__name__),
                                                       dtname(img), tag_of(img), aff_id(img.affine),
-                                                      'h' + aff_id(img.header.get_best_affine()), xf_of(img), fi, d1, d2]))
+                                                      ('hX' if isinstance(img, nib.Spm99AnalyzeImage) else     # SPM: the affine lives in the .mat file
+                                                       'h' + aff_id(img.header.get_best_affine())), xf_of(img), fi, d1, d2]))
         if not dead:
             fin = []
             for p in range(NP):
